@@ -29,7 +29,6 @@ package main
 
 import (
 	"bytes"
-	"os"
 	"fmt"
 	"strconv"
 	"strings"
@@ -209,6 +208,12 @@ func jsonHistExec(toks []string) string {
 		vals = append(vals, rest[:len(rest)-len(r2)])
 		rest = r2
 	}
+	// histories are about values of the round-trip domain only (the driver answers the same)
+	for _, v := range vals {
+		if r, ok := histTokValid(v); !ok || len(r) != 0 {
+			return "out-of-domain"
+		}
+	}
 	var slots []*histSlot
 	var results []*histRes
 	var out []string
@@ -324,7 +329,6 @@ func jsonHistExec(toks []string) string {
 				histEnv(a).AddGlobal(r.name, res)
 			}
 			if err != nil || res == nil {
-				if os.Getenv("HISTDBG") != "" { fmt.Fprintln(os.Stderr, "decode error:", err, res) }
 				out = append(out, "err")
 				continue
 			}
